@@ -741,5 +741,50 @@ def pd_role_taker(prog: Program) -> RuleResult:
     return r
 
 
+def pd_inverse_home(prog: Program) -> RuleResult:
+    """'A property implies its inverse': the inverse fact is a fact about the target, so it is written to the target when the target's class
+    declares the inverse field; the role taker is where it goes when the target has no such field.  With the precedence the other way round a
+    role (Athlete, declaring `enrolled_in`) whose taker (Human) declares the field too gets nothing, and the taker gets a fact nobody stated."""
+    from ..dtable import explore, Sym
+
+    r = RuleResult("PD-INVERSE-HOME", "the inverse fact goes to the target's own field before the role taker's", floor=3)
+    pdr = prog.cls("property_descriptor_relation.PropertyDescriptorRelation")
+    g = prog.method(pdr.qual, "inverse_domain_and_field", inherited=False)
+    if g is None:
+        raise AnalysisError("PD-INVERSE-HOME: PropertyDescriptorRelation.inverse_domain_and_field vanished")
+    paths = list(explore(prog, g, [Sym("self")], self_type=pdr.qual, inline=lambda q: False))
+
+    def truth_of(val, name):
+        for atom, value in val.items():
+            if atom[0] == "truth" and atom[1] == name:
+                return value
+            if atom[0] == "is" and "None" in atom[1:] and name in atom[1:]:
+                return not value
+        return None
+
+    OWN, RT = "self.inverse_field", "self.inverse_field_from_target_role_taker"
+    for val in [a for a, _, _ in paths]:
+        for atom in val:
+            if not any(nm in atom[1:] for nm in (OWN, RT)):
+                raise AnalysisError(f"PD-INVERSE-HOME: the choice consults {atom}")
+    for own in (True, False):
+        for rt in (True, False):
+            outs = set()
+            for val, out, _ in paths:
+                to, tr = truth_of(val, OWN), truth_of(val, RT)
+                if (to is None or to == own) and (tr is None or tr == rt):
+                    outs.add((out[0], repr(out[1])))
+            want = "self.target" if own else ("self.target_role_taker" if rt else None)
+            if want is None:
+                ok = all(k == "raise" for k, _ in outs) and bool(outs)
+            else:
+                ok = bool(outs) and all(k == "return" and v.replace(" ", "").startswith(("(" + want + ",", "tuple(" + want + ",", "Tuple(" + want + ",")) for k, v in outs)
+            lab = f"own-field={int(own)},role-taker-field={int(rt)}"
+            r.check(ok, f"PropertyDescriptorRelation.inverse_domain_and_field#{lab}", site(g), "; ".join(sorted(v for _, v in outs))[:90], f"{want or 'an error'}",
+                    f"{lab}: the inverse fact goes to {sorted(outs)!r:.120}, the semantics demand {want or 'an error (no field can take it)'}: a target that declares the inverse field takes the fact itself, "
+                    "its role taker only when it does not")
+    return r
+
+
 def run(prog: Program, tier: str) -> List[RuleResult]:
-    return [guard(lambda: _rel_edges(prog)), guard(lambda: _sg_purge(prog)), guard(lambda: pd_field(prog)), guard(lambda: pd_first_assign(prog)), guard(lambda: pd_closure(prog)), guard(lambda: pd_owner(prog)), guard(lambda: pd_supers(prog)), guard(lambda: _mc_eq(prog)), guard(lambda: pd_replace(prog)), guard(lambda: pd_init(prog)), guard(lambda: user_truth(prog, ["property_descriptor.property_descriptor", "property_descriptor.monitored_container", "property_descriptor.property_descriptor_relation"], 2)), guard(lambda: pd_exact(prog)), guard(lambda: pd_role_taker(prog)), guard(lambda: _pd_alias(prog))]
+    return [guard(lambda: pd_inverse_home(prog)), guard(lambda: _rel_edges(prog)), guard(lambda: _sg_purge(prog)), guard(lambda: pd_field(prog)), guard(lambda: pd_first_assign(prog)), guard(lambda: pd_closure(prog)), guard(lambda: pd_owner(prog)), guard(lambda: pd_supers(prog)), guard(lambda: _mc_eq(prog)), guard(lambda: pd_replace(prog)), guard(lambda: pd_init(prog)), guard(lambda: user_truth(prog, ["property_descriptor.property_descriptor", "property_descriptor.monitored_container", "property_descriptor.property_descriptor_relation"], 2)), guard(lambda: pd_exact(prog)), guard(lambda: pd_role_taker(prog)), guard(lambda: _pd_alias(prog))]
